@@ -525,6 +525,12 @@ def gen_program(rnd, feats, settings=None, nsteps=None, regions=None):
     if regions is None and "bed" not in feats and feats.get("beds", False):
         feats = dict(feats, bed=rnd.choice([(0.0, BED)] * 6 + [(-40.0, 40.0)] * 2 + [(0.0, 250.0), (-150.0, 150.0)]))
     regs = map_regions(gen_regions(rnd), feats.get("bed", (0.0, BED))) if regions is None else regions
+    if regions is None and feats.get("sentinels") and rnd.random() < 0.25:
+        # slabs far outside the bed: the tool never goes there, a wildly wrong tracked position does
+        lo, hi = feats.get("bed", (0.0, BED))
+        a, b = lo - 100.0, hi + 100.0
+        regs = regs + [["rect", -9000.0, -9000.0, a, 9000.0, "far-left"], ["rect", b, -9000.0, 9000.0, 9000.0, "far-right"],
+                       ["rect", -9000.0, -9000.0, 9000.0, a, "far-below"], ["rect", -9000.0, b, 9000.0, 9000.0, "far-above"]]
     g = ProgGen(rnd, regs, dict(feats), settings)
     g.emit("G28")
     if rnd.random() < 0.85:
